@@ -40,8 +40,8 @@ func (o *Outcome) violate(prop, clause, format string, a ...any) {
 	o.Violations = append(o.Violations, Violation{Prop: prop, Clause: clause, Detail: fmt.Sprintf(format, a...)})
 }
 
-func (o *Outcome) fault(kind string)  { o.Faults[kind]++ }
-func (o *Outcome) probe(name string)  { o.Probes[name]++ }
+func (o *Outcome) fault(kind string) { o.Faults[kind]++ }
+func (o *Outcome) probe(name string) { o.Probes[name]++ }
 func (o *Outcome) logf(format string, a ...any) {
 	if o.Log != nil {
 		o.Log = append(o.Log, fmt.Sprintf(format, a...))
